@@ -51,24 +51,25 @@ Theorem C06_prefix_range : forall (m : store) start,
 Proof. exact prefix_range. Qed.
 Print Assumptions C06_prefix_range.
 
-Theorem C06_badger_iter_collect_refuted : ~ iter_collect_full BBadger.
-Proof. exact badger_iter_collect_refuted. Qed.
-Print Assumptions C06_badger_iter_collect_refuted.
-
-Theorem C06_badger_seek_refuted : ~ iter_refines_full BBadger.
-Proof. exact badger_seek_refuted. Qed.
-Print Assumptions C06_badger_seek_refuted.
-
-Theorem C06_badger_iter_refines_partial : forall (m : store) start end_ rv iops,
-  sorted m -> end_not_stored m start end_ = true ->
-  positioned iops = true -> seeks_in_range start end_ iops = true ->
+Theorem C06_badger_iter_refines : forall (m : store) start end_ rv iops,
+  sorted m -> keys_nonempty m = true -> positioned iops = true ->
   map Some (it_run (it_open BBadger m start end_ rv) iops) =
   spec_run rv (spec_list m start end_ rv) None iops.
-Proof. exact badger_iter_refines_partial. Qed.
-Print Assumptions C06_badger_iter_refines_partial.
+Proof. exact badger_iter_refines. Qed.
+Print Assumptions C06_badger_iter_refines.
 
-Theorem C06_badger_iter_collect_partial : forall (m : store) start end_ rv,
-  sorted m -> end_not_stored m start end_ = true ->
+Theorem C06_badger_iter_collect : forall (m : store) start end_ rv,
+  sorted m ->
   it_collect BBadger m start end_ rv = spec_list m start end_ rv.
-Proof. exact badger_iter_collect_partial. Qed.
-Print Assumptions C06_badger_iter_collect_partial.
+Proof. exact badger_iter_collect. Qed.
+Print Assumptions C06_badger_iter_collect.
+
+Theorem C06_badger_seek_spec : forall (m : store) start end_ rv k pre_ops,
+  sorted m -> keys_nonempty m = true -> positioned (pre_ops ++ [ISeek k]) = true ->
+  List.last (it_run (it_open BBadger m start end_ rv) (pre_ops ++ [ISeek k])) (false, false, [], []) =
+  match (if rv then seek_le k (spec_range m start end_) else seek_ge k (spec_range m start end_)) with
+  | Some e => (true, true, fst e, snd e)
+  | None => (false, false, [], [])
+  end.
+Proof. exact badger_seek_spec. Qed.
+Print Assumptions C06_badger_seek_spec.
